@@ -29,10 +29,9 @@ polylines.  This file does it for a **filled polygon**: the closed region that t
 * a computable touch test `filledTouchesC` (boundary polyline clipped against the box, or the box's
   lower-left corner in the closed polygon), proved equivalent to `FilledMeets` under `ParityConst`.
 
-Not proved: `ParityConst` (segments of *arbitrary* direction) for non-convex rings.  It is no longer needed
-for C12 (the axis-parallel case suffices); the proof would repeat `vert_edge` with the band measured along
-the segment's direction, or derive it from direction-independence of the crossing parity
-(`parity_ray_independent` covers east/west only).
+`ParityConst` for segments of *arbitrary* direction and every ring is proved later, in `Props/C01Parity`
+(`GV.C01.parityConst_all`, by a shear that reduces to `axis_parityConst`).  Here it is not needed
+for C12 (the axis-parallel case suffices).
 -/
 namespace GV.FloodLat
 open GV.Flood GV.PipConvex
